@@ -350,7 +350,6 @@ class StdWatch:
     def observe(self, acc, c0, c1, before, after, hist_after):
         """One (_update_acceptation_rate(acc); _update_std()) pair as observed on the real object."""
         import numpy as np
-        import torch
 
         if self.dead:
             return
@@ -400,7 +399,6 @@ class StdWatch:
         if bad.any():
             return self.viol("std/wrong-factor", f"std ratio is not 1-/+{m.factor}",
                              ratio=(a.astype(np.float64) / b.astype(np.float64)).flatten()[:8], decisions=dec.flatten()[:8])
-        del torch
 
 
 def consume_std_events(ctx, events, watches, params_of, case):
